@@ -135,6 +135,9 @@ theorem Sem_regDx (sz : Int) : Sem (regDx sz) 0 0 0 := by
   repeat' split
   all_goals first | exact Sem_pure _ | exact Sem_fail _
 
+-- from here on `Sem` is opaque to `intro`/`apply`: the judgment is only built with the rules above
+attribute [irreducible] Sem
+
 /-! ### tactic: compose a `do` block -/
 
 /-- solve `Sem m ?r ?x ?d` for a sequential block whose leaves are known -/
@@ -208,16 +211,96 @@ theorem Sem_needTy_bind {w : String} {ty? : Option Ty} {f : Ty → M β}
     (h : ∀ t, ty? = some t → Sem (f t) r x d) : Sem (needTy w ty? >>= f) r x d := by
   refine (Sem_bind' (Sem_needTy w ty?) (fun a s s' l hm => h a (needTy_eq hm))).cast ?_ ?_ ?_ <;> omega
 
+theorem needVar_eq {w : String} {t : Option Var} {a : Var} {s s' : St} {l : List Line}
+    (h : needVar w t s = .ok (a, s', l)) : t = some a := by
+  cases t with
+  | none => cases h
+  | some t =>
+    simp only [needVar, pure, M.pure, Except.ok.injEq, Prod.mk.injEq] at h
+    rw [h.1]
+
 theorem Sem_needVar_bind {w : String} {v? : Option Var} {f : Var → M β}
     (h : ∀ v, v? = some v → Sem (f v) r x d) : Sem (needVar w v? >>= f) r x d := by
-  cases v? with
-  | none =>
-    intro s b s' ls hm
-    simp [bind, M.bind, needVar, nullDeref, fail] at hm
-  | some v =>
-    refine (Sem_bind (Sem_needVar w (some v)) (fun a => ?_)).cast (r := 0 + r) (x := 0 + x) (d := 0 + d) ?_ ?_ ?_
-    · intro s b s' ls hm
-      sorry
-    all_goals omega
+  refine (Sem_bind' (Sem_needVar w v?) (fun a s s' l hm => h a (needVar_eq hm))).cast ?_ ?_ ?_ <;> omega
+
+/-- zero-effect actions whose result the rest does not depend on (for the effect) -/
+syntax "sem_zero" : tactic
+macro_rules
+  | `(tactic| sem_zero) => `(tactic| first
+      | exact Sem_needTy _ _
+      | exact Sem_needVar _ _
+      | exact Sem_liftE _
+      | exact Sem_getDepth
+      | exact Sem_count
+      | exact Sem_argreg _ _
+      | exact Sem_regAx _
+      | exact Sem_regDx _
+      | exact Sem_pure _)
+
+/-- peel zero-effect prefixes and split every `if`/`match`, then compose each branch -/
+syntax "sem_auto" : tactic
+macro_rules
+  | `(tactic| sem_auto) => `(tactic|
+      ((repeat' (first
+          | (refine Sem_bind0 (by sem_zero) (fun _ => ?_))
+          | dsimp only
+          | split))
+       all_goals sem_prove))
+
+/-! ### gen_addr leaf, load, store, cmp_zero -/
+
+theorem Sem_addrVar (env : Env) (i : NInfo) (v : Option Var) : Sem (addrVar env i v) 0 0 0 := by
+  unfold addrVar
+  sem_auto
+
+theorem Sem_addrMember {a : M Unit} (h : Sem a 0 0 0) (mem : Option Member) :
+    Sem (addrMember a mem) 0 0 0 := by
+  unfold addrMember
+  cases mem with
+  | none => exact Sem_bind0 h (fun _ => Sem_fail _)
+  | some m => exact Sem_bind0 h (fun _ => Sem_emit rfl)
+
+theorem xOf_some (t : Ty) : xOf (some t) = if t.kind = .ldouble then 1 else 0 := by
+  simp [xOf, isLD]
+
+theorem Sem_load (ty? : Option Ty) : Sem (load ty?) 0 (xOf ty?) 0 := by
+  unfold load
+  refine Sem_needTy_bind fun ty hty => ?_
+  subst hty
+  rw [xOf_some]
+  cases hk : ty.kind <;> simp only [reduceCtorEq, if_false, if_true] <;> sem_auto
+
+theorem delta_copyBytes (src tmp dst : String) (hs : tmp ≠ "%rsp") (i n : Nat) :
+    delta (copyBytes src tmp dst i n) = some ⟨0, 0⟩ := by
+  induction n generalizing i with
+  | zero => simp [copyBytes, delta, H.zero]
+  | succ n ih =>
+    have h1 : lineDelta (ins2 "mov" (.m (↑i) src) (.r tmp)) = some ⟨0, 0⟩ := by
+      simp [lineDelta, ins2, insDelta, dstIsRsp, isRsp, hs, x87Push, x87Pop, x87Same, plainOps]
+    have h2 : lineDelta (ins2 "mov" (.r tmp) (.m (↑i) dst)) = some ⟨0, 0⟩ := by rfl
+    simp [copyBytes, delta, h1, h2, ih]
+
+theorem Sem_store (ty? : Option Ty) : Sem (store ty?) 8 0 (-1) := by
+  unfold store
+  refine (Sem_bind (Sem_pop "%rdi" (by decide)) (fun _ => ?_)).cast (r := 8 + 0) (x := 0 + 0) (d := -1 + 0)
+    (by omega) (by omega) (by omega)
+  refine Sem_needTy_bind fun ty _ => ?_
+  cases hk : ty.kind <;> simp only <;>
+    first
+    | exact Sem_emits (delta_copyBytes _ _ _ (by decide) _ _)
+    | sem_auto
+
+theorem Sem_cmpZero (ty? : Option Ty) : Sem (cmpZero ty?) 0 (-(xOf ty?)) 0 := by
+  unfold cmpZero
+  refine Sem_needTy_bind fun ty hty => ?_
+  subst hty
+  rw [xOf_some]
+  have ht : delta cmpZeroTail = some ⟨0, 0⟩ := by rfl
+  cases hk : ty.kind <;> simp only [reduceCtorEq, if_false, if_true] <;>
+    first
+    | (apply Sem.cast
+       case h => repeat (first | exact Sem_emit rfl | exact Sem_emits ht | apply Sem_bind | intro _)
+       all_goals (first | rfl | omega | (simp; done)))
+    | sem_auto
 
 end ChibiVerif.Lemmas.C20
